@@ -42,6 +42,7 @@ type Intent struct {
 	NoopEnd bool
 	NoopOpaque uint32
 	Bytes   []byte // encoding
+	ErrPfx  string // text requests that must be answered with an error line: its prefix
 }
 
 const (
@@ -72,7 +73,16 @@ const (
 	nBinKinds
 )
 
-func symKey(name string, n int) []byte { return rt.Bytes(name, n) }
+// KeyHook, when set, supplies the key bytes of generated requests (the orchestrator-level
+// harnesses draw keys from the concrete model alphabet instead of symbolic bytes).
+var KeyHook func(name string) []byte
+
+func symKey(name string, n int) []byte {
+	if KeyHook != nil {
+		return KeyHook(name)
+	}
+	return rt.Bytes(name, n)
+}
 
 // binIntent builds a symbolic request of the given kind.
 func binIntent(p string, kind, keyLen, dataLen int) *Intent {
@@ -85,7 +95,7 @@ func binIntent(p string, kind, keyLen, dataLen int) *Intent {
 		it.Flags, it.TTL = rt.U32(p+"flags"), rt.U32(p+"ttl")
 		it.Data = rt.Bytes(p+"data", dataLen)
 		it.Opaques = []uint32{opq("opaque")}
-		it.Bytes = append(binHeader(op, keyLen, 8, dataLen, it.Opaques[0]), be32(it.Flags)...)
+		it.Bytes = append(binHeader(op, len(it.Keys[0]), 8, dataLen, it.Opaques[0]), be32(it.Flags)...)
 		it.Bytes = append(it.Bytes, be32(it.TTL)...)
 		it.Bytes = append(it.Bytes, it.Keys[0]...)
 		it.Bytes = append(it.Bytes, it.Data...)
@@ -95,7 +105,7 @@ func binIntent(p string, kind, keyLen, dataLen int) *Intent {
 		it.Keys = [][]byte{key("key")}
 		it.Data = rt.Bytes(p+"data", dataLen)
 		it.Opaques = []uint32{opq("opaque")}
-		it.Bytes = append(binHeader(op, keyLen, 0, dataLen, it.Opaques[0]), it.Keys[0]...)
+		it.Bytes = append(binHeader(op, len(it.Keys[0]), 0, dataLen, it.Opaques[0]), it.Keys[0]...)
 		it.Bytes = append(it.Bytes, it.Data...)
 	}
 	keyOnly := func(op uint8, k []byte, o uint32) []byte { return append(binHeader(op, len(k), 0, 0, o), k...) }
@@ -161,7 +171,7 @@ func binIntent(p string, kind, keyLen, dataLen int) *Intent {
 		it.Keys = [][]byte{key("key")}
 		it.TTL = rt.U32(p + "ttl")
 		it.Opaques = []uint32{opq("opaque")}
-		it.Bytes = append(binHeader(op, keyLen, 4, 0, it.Opaques[0]), be32(it.TTL)...)
+		it.Bytes = append(binHeader(op, len(it.Keys[0]), 4, 0, it.Opaques[0]), be32(it.TTL)...)
 		it.Bytes = append(it.Bytes, it.Keys[0]...)
 	case kDelete:
 		it.Type = common.RequestDelete
@@ -311,6 +321,9 @@ func symDigits(name string, n int) ([]byte, uint64) {
 }
 
 func textKey(name string, n int) []byte {
+	if KeyHook != nil {
+		return KeyHook(name)
+	}
 	k := rt.Bytes(name, n)
 	for _, c := range k {
 		rt.Assume(rt.And(c >= 0x21, c <= 0x7e))
@@ -333,6 +346,9 @@ const (
 	tVersion
 	tQuit
 	nTextKinds
+	// kinds below are not part of the C07 decode round trip (they are answered with errors): C08
+	tUnknown
+	tBadTouch
 )
 
 func textIntent(p string, kind, keyLen, dataLen, flagDigits int) *Intent {
@@ -386,6 +402,15 @@ func textIntent(p string, kind, keyLen, dataLen, flagDigits int) *Intent {
 	case tQuit:
 		it.Type = common.RequestQuit
 		it.Bytes = []byte("quit\r\n")
+	case tUnknown:
+		it.Type = common.RequestUnknown
+		it.Bytes = []byte("bogus\r\n")
+		it.ErrPfx = "ERROR"
+	case tBadTouch:
+		// a bad numeric field on a command without a data block: client error, stream in sync
+		it.Type = common.RequestUnknown
+		it.ErrPfx = "CLIENT_ERROR"
+		it.Bytes = append(append([]byte("touch "), textKey(p+"key", keyLen)...), []byte(" 1x\r\n")...)
 	}
 	return it
 }
